@@ -4,6 +4,15 @@ from ..areas import memo as A
 from ..extract import memo as xmemo
 
 OTHER_ERRNOS = ("EMSGSIZE", "EPERM", "EACCES", "EPIPE", "ENOBUFS", "EAGAIN")
+WOULDBLOCK = ("EAGAIN", "EWOULDBLOCK", "ENOBUFS", "ENOMEM")     # what a datagram socket reports when it cannot take the data now
+
+
+def parts(case):
+    """(peer, grams, script, calls): peer None = Memoer-level scripted send(), 'udp' / 'uxd' = socket-level script under the real Peer.send"""
+    if case[0] == "txp":
+        return case[1], case[2], case[3], case[4]
+    return None, case[1], case[2], case[3]
+
 
 
 class C21(core.Check):
@@ -21,18 +30,23 @@ class C21(core.Check):
                   "and tx_conservation_per_dst (byte level), tx_drop_only_unreachable, tx_escape_only_unexpected_errno / tx_no_escape, tx_progress (F35: "
                   "a pending remainder is retried even with an empty queue), tx_liveness (after |script|+1 greedy calls nothing is pending and every gram "
                   "was sent completely or given up on unreachable), loopTx_fuel (the model's loop bound never stops the loop), wouldblock_never_drops "
-                  "(regenerated errno tables of udp/uxd Peer.send vs the unreachable tuple). Nothing is _partial.")
+                  "(regenerated errno tables of udp/uxd Peer.send vs the unreachable tuple). END TO END FROM THE SOCKET (udping/uxding Peer.send modelled by "
+                  "peerSend from the regenerated tables: sendto count | would-block errno -> 0 | other OSError re-raised): tx_fifo_exact_socket, "
+                  "tx_no_escape_socket (counts, would-block and unreachable errnos at the socket: nothing escapes), tx_wouldblock_keeps_gram, "
+                  "tx_liveness_socket. Nothing is _partial.")
     level_note = ("Trusted: Lean kernel + propext/Classical.choice/Quot.sound; the translator harness/extract/memo.py (probes the real "
                   "_serviceOnceTxGrams and udp/uxd Peer.send with every errno); the sampled correspondence for the hand-written step function. "
                   "Pre-findings F34 and F35 were reproduced on the real code and repaired (fix/memo dc1c50d, e90d8ac); the model is of the fixed code.")
     quick_n = 1500
     thorough_n = 40000
-    rule = ("cases: queue of 0..6 grams (0..40 bytes, incl. empty and equal grams, 1..3 destinations), script of 0..14 send outcomes "
+    rule = ("calls also include serviceAllTx, close / reopen; socket scripts also raise OSError subclasses; a neighbour instance holds a gram of its own. 40% of the cases run one level down: the REAL udp / uxd PeerMemoer (real Peer.send) over a scripted socket whose sendto returns a count or "
+            "raises EAGAIN / EWOULDBLOCK / ENOBUFS / ENOMEM / an unreachable errno / another errno; the rest script Memoer.send directly. "
+            "cases: queue of 0..6 grams (0..40 bytes, incl. empty and equal grams, 1..3 destinations), script of 0..14 send outcomes "
             "(accept 0..len+2 | would-block | unreachable errno | rarely another errno), calls drawn from serviceTxGrams / serviceTxGramsOnce / "
             "gramit in the middle, followed by |script|+2 greedy calls.  non-trivial = at least one partial accept or would-block or unreachable "
             "outcome was consumed; distinct by request line")
     trusted_base = ["translator harness/extract/memo.py (errno probe over errno.errorcode + AST cross-check)",
-                    "correspondence harness/props/C21.py: compiled model vs real Memoer with scripted send()",
+                    "correspondence harness/props/C21.py: compiled model vs real Memoer with scripted send(), and vs real udp/uxd PeerMemoer over a scripted socket",
                     "modelled: .txgs as list, .txbs as (bytes, optional dst); transport as a script of per-call outcomes"]
     assumptions = ["the transport's send() either returns 0 <= n <= len(data), or raises OSError(errno) (udp/uxd Peer.send map EAGAIN/ENOBUFS/ENOMEM to 0: regenerated table)",
                    "the Memoer is opened and destinations are truthy values"]
@@ -53,6 +67,16 @@ class C21(core.Check):
             ("tx", [(b"", 1), (b"x", 2)], [], ["g", "g"]),
             ("tx", [], [("w",)], ["g", "o", ("q", b"late", 1), "o", "g"]),
             ("tx", [(b"abc", 1), (b"abc", 1), (b"abc", 2)], [("a", 1), ("w",), ("a", 1), ("a", 0), ("a", 1)], ["o", "g", "o", "g", "g", "g", "g", "g"]),
+            # socket level, the real udp / uxd Peer.send between the Memoer and a scripted socket
+            ("txp", "udp", g2, [("e", "ENOBUFS"), ("a", 4), ("e", "ENOMEM"), ("e", "EAGAIN"), ("a", 100)], ["g", "g", "g", "g", "g", "g"]),
+            ("txp", "uxd", g2, [("e", "ENOBUFS"), ("a", 4), ("e", "ENOMEM"), ("e", "EAGAIN"), ("a", 100)], ["g", "g", "g", "g", "g", "g"]),
+            ("txp", "uxd", g2, [("a", 3), ("e", "EWOULDBLOCK"), ("e", "ENOENT"), ("a", 2)], ["o", "o", "g", "g", "g"]),
+            ("txp", "udp", g2, [("e", "EMSGSIZE")], ["g", "g"]),
+            ("txp", "udp", g2, [("x", "BlockingIOError"), ("a", 4), ("x", "ConnectionRefusedError"), ("x", "TimeoutError")], ["g", "g", "g", "g"]),
+            ("txp", "uxd", g2, [("a", 2), ("x", "timeout")], ["g", "g", "g"]),
+            ("txp", "uxd", g2, [("x", "gaierror")], ["g", "g"]),
+            ("tx", g2, [("a", 4)], ["g", "c", "g", "o", ("q", b"while-closed", 2), "r", "g", "g", "g"]),       # closed in between: nothing sent, nothing lost
+            ("txp", "udp", g2, [("a", 4), ("e", "ENOBUFS")], ["o", "c", "a", "r", "a", "a", "a"]),
         ]
 
     def exhaustive(self, tier):
@@ -99,41 +123,75 @@ class C21(core.Check):
                     calls.append("o")
                 else:
                     calls.append(("q", bytes(rng.randrange(97, 123) for _ in range(rng.randrange(0, 9))), rng.randrange(1, nd + 1)))
+            if calls and rng.random() < 0.25:      # the transport is closed for a while and reopened: queue and remainder must survive
+                i = rng.randrange(len(calls))
+                calls[i:i] = ["c"] + [rng.choice(["g", "o"]) for _ in range(rng.randrange(0, 3))] + ["r"]
+            calls = [("a" if c == "g" and rng.random() < 0.15 else c) for c in calls]       # serviceAllTx is another way in
             calls += ["g"] * (len(script) + 2)
-            yield ("tx", grams, script, calls)
+            if rng.random() < 0.4:      # the same history one level down: the socket reports errnos, the real Peer.send sits in between
+                sock = [(("e", rng.choice(WOULDBLOCK)) if x[0] == "w" else x) for x in script]
+                sock = [(("x", rng.choice(sorted(A.EXOTIC))) if x[0] == "e" and rng.random() < 0.2 else x) for x in sock]   # as the OSError subclass a socket raises
+                yield ("txp", rng.choice(["udp", "uxd"]), grams, sock, calls)
+            else:
+                yield ("tx", grams, script, calls)
 
     def request(self, case):
-        _, grams, script, calls = case
+        peer, grams, script, calls = parts(case)
+        cl = tuple((("g" if c == "a" else c) if isinstance(c, str) else ("q", bytes(c[1]), c[2])) for c in calls)
+        if peer:
+            return ("txp", ("peer", peer), ("grams",) + tuple((bytes(g), d) for g, d in grams),
+                    ("script",) + tuple(("e", A.sock_errno(s)) if s[0] in ("e", "x") else tuple(s) for s in script), ("calls",) + cl)
         return ("tx", ("grams",) + tuple((bytes(g), d) for g, d in grams),
                 ("script",) + tuple(("e", A.errno_of(s[1])) if s[0] == "e" else tuple(s) for s in script),
-                ("calls",) + tuple(c if isinstance(c, str) else ("q", bytes(c[1]), c[2]) for c in calls))
+                ("calls",) + tuple((("g" if c == "a" else c) if isinstance(c, str) else ("q", bytes(c[1]), c[2])) for c in calls))
 
     def run_impl(self, case):
-        _, grams, script, calls = case
-        return A.run_tx(grams, script, calls)
+        peer, grams, script, calls = parts(case)
+        return A.run_tx(grams, script, calls, peer)
 
     # ---- the property as a predicate on what the transport saw
     def oracle(self, case, obs):
-        _, grams, script, calls = case
+        try:
+            return self._oracle(case, obs)
+        except Exception as ex:       # an observation this predicate cannot account for is a violation, never a crash
+            return ["observation-not-accountable:" + type(ex).__name__]
+
+    def _oracle(self, case, obs):
+        peer, grams, script, calls = parts(case)
         bad = []
+        if any(o[0] not in ("call", "final", "escape") for o in obs):
+            return sorted({o[0] for o in obs if o[0] not in ("call", "final", "escape")})
         drop = {A.errno_of(n) for n in A.UNREACH}
+        if peer:       # at the socket a would-block is an errno; the transport must turn it into "nothing sent, try again"
+            wb = {A.errno_of(n) for n in WOULDBLOCK}
+            obs = [o if o[0] != "call" else ("call",) + tuple((d, off, ("w",) if r[0] == "e" and r[1] in wb else r) for d, off, r in o[1:])
+                   for o in obs]
         q = [(bytes(g), d) for g, d in grams]
         cur = None          # [gram, dst, offset]
         consumed = 0
         it = iter(obs)
         escaped = False
         last_kind = None
+        opened = True
         for c in calls:
             if not isinstance(c, str):
                 q.append((bytes(c[1]), c[2]))
                 last_kind = "q"
                 continue
+            if c in ("c", "r"):
+                opened = (c == "r")
+                last_kind = c
+                continue
+            if c == "a":
+                c = "g"
             o = next(it, None)
             if o is None or o[0] != "call":
                 bad.append("observation-shape")
                 return bad
-            pending_before = bool(q) or cur is not None
+            pending_before = opened and (bool(q) or cur is not None)
             evs = o[1:]
+            if not opened and evs:
+                bad.append("send-while-closed")
             if pending_before and not evs:
                 bad.append("no-send-attempt-while-pending")       # F35: remainder never retried
             if c == "o" and len(evs) > 1:
@@ -182,13 +240,19 @@ class C21(core.Check):
         elif held_b != (cur[0][cur[2]:], cur[1]):
             bad.append("gram-in-flight-not-held-for-retry")            # F34: a blocked fresh gram is not kept
         # liveness: the script ran out (transport accepts everything) before the last greedy call
-        if last_kind == "g" and consumed >= len(script) and (q or cur is not None):
+        if last_kind == "g" and opened and consumed >= len(script) and (q or cur is not None):
             sends_last = len([x for x in obs if x[0] == "call"][-1]) - 1
             if consumed - sends_last >= len(script):
                 bad.append("not-drained-although-transport-accepts")
         return bad
 
     def nontrivial(self, case, obs):
+        try:
+            return self._nontrivial(case, obs)
+        except Exception:
+            return True
+
+    def _nontrivial(self, case, obs):
         for o in obs:
             if o[0] == "call":
                 for _d, offered, res in o[1:]:
@@ -197,7 +261,14 @@ class C21(core.Check):
         return False
 
     def features(self, case, obs):
-        f = [f"grams={min(len(case[1]), 4)}", f"script~{min(len(case[2]), 9) // 3 * 3}"]
+        try:
+            return self._features(case, obs)
+        except Exception as ex:
+            return ["features-failed:" + type(ex).__name__]
+
+    def _features(self, case, obs):
+        peer, grams_, script_, calls_ = parts(case)
+        f = ["level:" + (peer or "memoer"), f"grams={min(len(grams_), 4)}", f"script~{min(len(script_), 9) // 3 * 3}"]
         kinds = set()
         for o in obs:
             if o[0] == "call":
@@ -210,11 +281,16 @@ class C21(core.Check):
                         kinds.add("unreachable" if res[1] in {A.errno_of(n) for n in A.UNREACH} else "other-errno")
             elif o[0] == "escape":
                 kinds.add("escape:" + o[1])
-        if any(not isinstance(c, str) for c in case[3]):
+        if any(not isinstance(c, str) for c in calls_):
             kinds.add("gramit-midway")
         return f + sorted(kinds)
 
     def shrink(self, case):
+        peer, grams, script, calls = parts(case)
+        for c in self._shrink3(("tx", grams, script, calls)):
+            yield (("txp", peer) + tuple(c[1:])) if peer else c
+
+    def _shrink3(self, case):
         _, grams, script, calls = case
         for i in range(len(grams)):
             yield ("tx", grams[:i] + grams[i + 1:], script, calls)
@@ -227,11 +303,15 @@ class C21(core.Check):
                 yield ("tx", grams[:i] + [(g[:len(g) // 2], d)] + grams[i + 1:], script, calls)
 
     def mutate(self, rng, case):
-        _, grams, script, calls = case
+        peer, grams, script, calls = parts(case)
         out = list(self.shrink(case))
         for i in range(len(script)):
-            for s in (("w",), ("a", 1), ("e", "ECONNREFUSED")):
-                out.append(("tx", grams, script[:i] + [s] + script[i + 1:], calls))
+            for s in ((("e", "ENOBUFS") if peer else ("w",)), ("a", 1), ("e", "ECONNREFUSED")):
+                c = (grams, script[:i] + [s] + script[i + 1:], calls)
+                out.append((("txp", peer) + c) if peer else (("tx",) + c))
+        if not peer:
+            for k in ("udp", "uxd"):
+                out.append(("txp", k, grams, [(("e", "ENOBUFS") if x[0] == "w" else x) for x in script], calls))
         return out
 
 
